@@ -26,10 +26,14 @@ pub struct Case {
     /// explicit hidden positions (overrides hidden_mask; for attribute counts above 8)
     #[serde(default)]
     pub hidden_list: Vec<usize>,
+    /// issuance only: the issuer has published this many more bases than there are attributes
+    #[serde(default)]
+    pub spare: u8,
 }
 
 pub fn strat(nmax: usize) -> impl Strategy<Value = Case> {
-    (any::<u16>(), 1usize..=nmax, 1u8..=31, 0u8..3, any::<u32>()).prop_map(|(key, n, hm, kind, seed)| Case { key, n, hidden_mask: (hm as usize % ((1 << n) - 1)) as u8 + 1, kind, seed, small_mask: 0, hidden_list: vec![] })
+    (any::<u16>(), 1usize..=nmax, 1u8..=31, 0u8..3, any::<u32>(), prop::sample::select(vec![0u8, 0, 1, 2, 3]))
+        .prop_map(|(key, n, hm, kind, seed, spare)| Case { key, n, hidden_mask: (hm as usize % ((1 << n) - 1)) as u8 + 1, kind, seed, small_mask: 0, hidden_list: vec![], spare })
 }
 
 /// public base pair (g, h) modulo n, with a label
@@ -39,6 +43,8 @@ pub struct BasePair {
     pub h: Integer,
     pub n: Integer,
     pub label: String,
+    /// attribute position this base belongs to
+    pub pos: usize,
 }
 
 /// what the other party holds: the serialised proof and public data; plus (for the oracle only) the secrets
@@ -52,6 +58,8 @@ pub struct View {
     pub secrets: Vec<(String, Integer)>,
     /// hidden attribute values by position
     pub hidden_vals: Vec<(usize, Integer)>,
+    /// every attribute value by position (witness side only)
+    pub all_vals: Vec<Integer>,
     pub sig_v: Option<Integer>,
     /// public data needed by C19 to recompute challenges
     pub issuer_n: Integer,
@@ -81,7 +89,7 @@ where
     let hidden_vals: Vec<(usize, Integer)> = hidden.iter().map(|&i| (i, vals[i].clone())).collect();
     let kind = if c.kind % 3 == 1 && sh.tp.is_none() { 0 } else { c.kind % 3 };
     if kind < 2 && !hidden.is_empty() {
-        let bases = Bases::generate(pk, n);
+        let bases = Bases::generate(pk, n + c.spare as usize);
         let msgs: Vec<CL03Message> = vals.iter().cloned().map(CL03Message::new).collect();
         let com = Commitment::<CL03<CS>>::commit_with_pk(&msgs, pk, &bases, Some(&hidden));
         let cc = com.cl03Commitment().clone();
@@ -93,9 +101,9 @@ where
         if !catch(|| zk.verify_proof(&c_issuer, t_issuer.as_ref(), pk, &bases, tp, &hidden)).unwrap_or(false) {
             return Err("honest issuance proof does not verify".into());
         }
-        let mut pairs: Vec<BasePair> = (0..n).map(|i| BasePair { g: bases.0[i].clone(), h: pk.b.clone(), n: pk.N.clone(), label: format!("(a_{}, b)", i) }).collect();
+        let mut pairs: Vec<BasePair> = (0..n).map(|i| BasePair { g: bases.0[i].clone(), h: pk.b.clone(), n: pk.N.clone(), label: format!("(a_{}, b)", i), pos: i }).collect();
         if let Some(t) = tp {
-            pairs.extend((0..n).map(|i| BasePair { g: t.g_bases[i].clone(), h: t.h.clone(), n: t.N.clone(), label: format!("(g_{}, h) of the trusted party", i) }));
+            pairs.extend((0..n).map(|i| BasePair { g: t.g_bases[i].clone(), h: t.h.clone(), n: t.N.clone(), label: format!("(g_{}, h) of the trusted party", i), pos: i }));
         }
         let mut secrets: Vec<(String, Integer)> = hidden_vals.iter().map(|(i, v)| (format!("hidden attribute m_{}", i), v.clone())).collect();
         secrets.push(("randomness r of the commitment C".into(), cc.randomness.clone()));
@@ -110,6 +118,7 @@ where
             hidden,
             secrets,
             hidden_vals,
+            all_vals: vals.clone(),
             sig_v: None,
             issuer_n: pk.N.clone(),
             a_bases: bases.0.clone(),
@@ -119,6 +128,7 @@ where
             c_value: Some(cc.value.clone()),
         })
     } else {
+        let vals_copy = vals.clone();
         let h = c15::honest::<CS>(key, n, &hidden, vals, false)?;
         if !catch(|| h.proof.proof_verify(&h.cpk, pk, &h.bases, &h.revealed, &hidden, n)).unwrap_or(false) {
             return Err("honest signature proof does not verify".into());
@@ -127,8 +137,8 @@ where
         let (e, s, v) = (int_of(&sj["CL03"]["e"]).unwrap(), int_of(&sj["CL03"]["s"]).unwrap(), int_of(&sj["CL03"]["v"]).unwrap());
         // with many attributes only the base pairs of the hidden positions and of the two ends are tried
         let which: Vec<usize> = if n <= 8 { (0..n).collect() } else { let mut w = hidden.clone(); w.extend([0, n - 1]); w.sort(); w.dedup(); w };
-        let mut pairs: Vec<BasePair> = which.iter().map(|&i| BasePair { g: h.cpk.g_bases[i].clone(), h: h.cpk.h.clone(), n: h.cpk.N.clone(), label: format!("(g_{}, h)", i) }).collect();
-        pairs.extend(which.iter().map(|&i| BasePair { g: h.bases.0[i].clone(), h: pk.b.clone(), n: pk.N.clone(), label: format!("(a_{}, b)", i) }));
+        let mut pairs: Vec<BasePair> = which.iter().map(|&i| BasePair { g: h.cpk.g_bases[i].clone(), h: h.cpk.h.clone(), n: h.cpk.N.clone(), label: format!("(g_{}, h)", i), pos: i }).collect();
+        pairs.extend(which.iter().map(|&i| BasePair { g: h.bases.0[i].clone(), h: pk.b.clone(), n: pk.N.clone(), label: format!("(a_{}, b)", i), pos: i }));
         let mut secrets: Vec<(String, Integer)> = hidden_vals.iter().map(|(i, v)| (format!("hidden attribute m_{}", i), v.clone())).collect();
         secrets.push(("signature exponent e".into(), e));
         secrets.push(("signature component s".into(), s));
@@ -140,6 +150,7 @@ where
             hidden,
             secrets,
             hidden_vals,
+            all_vals: vals_copy,
             sig_v: Some(v),
             issuer_n: pk.N.clone(),
             a_bases: h.bases.0.clone(),
@@ -301,6 +312,79 @@ pub fn attack_difference_quotient(proof: &Value, challenges: &[Integer], candida
     None
 }
 
+/// Program 6 (run by the witness holder, who knows every attribute): for every field that is a group element V and
+/// every message part M the prover could have committed to under one base family (a single attribute, all of them,
+/// the hidden ones, the revealed ones, nothing), the blinding part V / M.  Two different fields with the same
+/// blinding part share their commitment randomness; their quotient is then the quotient of the message parts, and
+/// when that quotient involves a hidden attribute the recipient confirms guesses for it (exactly, if it is the only
+/// hidden one involved).  A blinding part equal to 1 is a commitment that was not blinded at all.
+/// Returns (path 1, path 2, family label, positions in which the two message parts differ).
+pub fn shared_blinding(v: &View) -> Option<(String, String, String, Vec<usize>)> {
+    use std::collections::HashMap;
+    let leaves = int_leaves(&v.proof);
+    let mut groups: Vec<(Integer, Integer, Vec<&BasePair>)> = vec![];
+    for bp in &v.pairs {
+        match groups.iter_mut().find(|g| g.0 == bp.h && g.1 == bp.n) {
+            Some(g) => g.2.push(bp),
+            None => groups.push((bp.h.clone(), bp.n.clone(), vec![bp])),
+        }
+    }
+    for (_, n, members) in &groups {
+        // only complete families (a base for every attribute) allow the "all / hidden / revealed" parts
+        let singles: Vec<(Vec<usize>, Integer)> = members.iter().filter(|bp| bp.pos < v.all_vals.len()).map(|bp| (vec![bp.pos], pow(&bp.g, &v.all_vals[bp.pos], n))).collect();
+        let mut parts: Vec<(Vec<usize>, Integer)> = vec![(vec![], Integer::from(1))];
+        parts.extend(singles.iter().cloned());
+        let complete = (0..v.n_attr).all(|i| singles.iter().any(|s| s.0 == [i]));
+        if complete && v.n_attr >= 2 {
+            let prod = |sel: &dyn Fn(usize) -> bool| -> (Vec<usize>, Integer) {
+                let mut pos = vec![];
+                let mut m = Integer::from(1);
+                for i in 0..v.n_attr {
+                    if sel(i) {
+                        pos.push(i);
+                        m = m * &singles.iter().find(|s| s.0 == [i]).unwrap().1 % n;
+                    }
+                }
+                (pos, m)
+            };
+            for p in [prod(&|_| true), prod(&|i| v.hidden.contains(&i)), prod(&|i| !v.hidden.contains(&i))] {
+                if p.0.len() >= 2 && !parts.iter().any(|q| q.0 == p.0) {
+                    parts.push(p);
+                }
+            }
+        }
+        let inv: Vec<(Vec<usize>, Integer)> = parts.into_iter().filter_map(|(s, m)| m.invert(n).ok().map(|i| (s, i))).collect();
+        let mut seen: HashMap<Integer, (String, Integer, Vec<usize>)> = HashMap::new();
+        for (path, val) in &leaves {
+            if *val <= 1 || val >= n {
+                continue;
+            }
+            for (s, mi) in &inv {
+                let r = (val * mi).complete() % n;
+                if r == 1 {
+                    if s.iter().any(|i| v.hidden.contains(i)) {
+                        return Some((path.clone(), "(no blinding at all)".into(), members[0].label.clone(), s.clone()));
+                    }
+                    continue;
+                }
+                match seen.get(&r) {
+                    Some((p2, v2, s2)) if v2 != val => {
+                        let diff: Vec<usize> = (0..v.n_attr).filter(|i| s.contains(i) != s2.contains(i)).collect();
+                        if diff.iter().any(|i| v.hidden.contains(i)) {
+                            return Some((p2.clone(), path.clone(), members[0].label.clone(), diff));
+                        }
+                    }
+                    Some(_) => {}
+                    None => {
+                        seen.insert(r, (path.clone(), val.clone(), s.clone()));
+                    }
+                }
+            }
+        }
+    }
+    None
+}
+
 pub fn check_view(rep: &Report, ck: &str, c: &Case, v: &View) -> CheckResult {
     let cj = |d: Value| json!({"case": c, "kind": v.kind, "hidden": v.hidden, "detail": d});
     let mut st = (c.seed as u64) << 3 | 7;
@@ -350,6 +434,16 @@ pub fn check_view(rep: &Report, ck: &str, c: &Case, v: &View) -> CheckResult {
             cj(json!({"s": p1, "s_prime": p2, "secret": v.secrets[si].0})),
         );
     }
+    // (F) commitments that share their randomness (or have none)
+    rep.eval(ck, 1);
+    if let Some((p1, p2, fam, diff)) = shared_blinding(v) {
+        return rep.fail(
+            ck,
+            &format!("commitments-share-their-randomness:{}:{}:{}", v.kind, generic_path(&p1), generic_path(&p2)),
+            format!("{}: {} and {} carry the same blinding part under the base family of {}; their quotient is a product over attribute positions {:?} alone, which confirms guesses for the hidden one(s) among them", v.kind, p1, p2, fam, diff),
+            cj(json!({"field_1": p1, "field_2": p2, "positions": diff})),
+        );
+    }
     // (D) dictionary attack: true value vs decoy, order decided by the seed; the attacker sees only
     // the proof, the public base pairs and the two candidates
     for (pos, truth) in &v.hidden_vals {
@@ -387,7 +481,7 @@ fn self_test(sh: &Shared) -> Result<(), String> {
     let m = attr_random(&mut st);
     let com = Commitment::<CL03<CL1024Sha256>>::commit_with_pk(&[CL03Message::new(m.clone())], &key.pk, &bases, None);
     let leaky = json!({"x": {"commitment": serde_json::to_value(com.cl03Commitment()).unwrap()}});
-    let pairs = vec![BasePair { g: bases.0[0].clone(), h: key.pk.b.clone(), n: key.pk.N.clone(), label: "(a_0, b)".into() }];
+    let pairs = vec![BasePair { g: bases.0[0].clone(), h: key.pk.b.clone(), n: key.pk.N.clone(), label: "(a_0, b)".into(), pos: 0 }];
     let decoy = attr_random(&mut st);
     if attack_pairs(&leaky, &pairs, &[decoy.clone(), m.clone()]).map(|x| x.2) != Some(1) {
         return Err("attack_pairs misses a planted opening".into());
@@ -420,25 +514,25 @@ pub fn fixed_cases(ctx: &Ctx, nmax: usize) -> Vec<Case> {
                 if kind == 1 && k % 2 == 0 {
                     continue;
                 }
-                out.push(Case { key: (k * 7919) as u16, n, hidden_mask: mask, kind, seed: (ctx.seed as u32).wrapping_add(k), small_mask: 0, hidden_list: vec![] });
+                out.push(Case { key: (k * 7919) as u16, n, hidden_mask: mask, kind, seed: (ctx.seed as u32).wrapping_add(k), small_mask: 0, hidden_list: vec![], spare: if kind < 2 { (k % 3) as u8 } else { 0 } });
             }
         }
     }
     // full disclosure (nothing hidden): e, v and the commitment randomness must still stay hidden
     for n in 1..=3usize {
         k += 1;
-        out.push(Case { key: (k * 7919) as u16, n, hidden_mask: 0, kind: 2, seed: (ctx.seed as u32).wrapping_add(k), small_mask: 0, hidden_list: vec![] });
+        out.push(Case { key: (k * 7919) as u16, n, hidden_mask: 0, kind: 2, seed: (ctx.seed as u32).wrapping_add(k), small_mask: 0, hidden_list: vec![], spare: 0 });
     }
     // many attributes, hidden positions beyond 32 and 64
     for (n, hl) in [(34usize, vec![33usize]), (66, vec![64]), (66, vec![2, 65]), (70, vec![0, 31, 32, 63, 64, 69])] {
         k += 1;
-        out.push(Case { key: (k * 7919) as u16, n, hidden_mask: 0, kind: 2, seed: (ctx.seed as u32).wrapping_add(k), small_mask: 0, hidden_list: hl });
+        out.push(Case { key: (k * 7919) as u16, n, hidden_mask: 0, kind: 2, seed: (ctx.seed as u32).wrapping_add(k), small_mask: 0, hidden_list: hl, spare: 0 });
     }
     // larger attribute counts: first / last / alternating positions hidden
     for n in [6usize, 8] {
         for (j, mask) in [1u8, 1 << (n - 1), 0b10100101 & (((1u16 << n) - 1) as u8)].into_iter().enumerate() {
             k += 1;
-            out.push(Case { key: (k * 7919) as u16, n, hidden_mask: mask, kind: [2u8, 0, 2][j], seed: (ctx.seed as u32).wrapping_add(k), small_mask: 0, hidden_list: vec![] });
+            out.push(Case { key: (k * 7919) as u16, n, hidden_mask: mask, kind: [2u8, 0, 2][j], seed: (ctx.seed as u32).wrapping_add(k), small_mask: 0, hidden_list: vec![], spare: 0 });
         }
     }
     out
@@ -479,9 +573,9 @@ pub fn run(ctx: &Ctx, rep: &Report) -> Meta {
         }
     }
     Meta {
-        rule: "honest issuance proofs (with and without trusted-party commitment) and signature proofs for EVERY non-empty hidden set (n = 1..3 quick / 1..5 thorough) plus generated cases, high-entropy 256-bit attributes only; \
+        rule: "honest issuance proofs (with and without trusted-party commitment) and signature proofs for EVERY non-empty hidden set (n = 1..3 quick / 1..5 thorough) plus generated cases, high-entropy 256-bit attributes only, issuers with 0..3 more bases than attributes; \
                attacker programs over serde_json::to_value(proof) and the public base pairs {(a_i, b), (g_i, h)}: (A) every (value, randomness)-shaped object tested as an opening of every secret the prover holds, \
-               (B) every integer leaf as value against every integer leaf as randomness, (C) recovery of the signature's v as V * g^(-rho) over all leaf pairs, (D) dictionary attack with the true hidden attribute and a decoy in seed-shuffled order, by opening recomputation, by arithmetic relations (a field equal to or a multiple of the candidate) and by difference quotients (s - s')/(c - c') over all response pairs and all pairs of public challenges (shared blinding inside one proof); \
+               (B) every integer leaf as value against every integer leaf as randomness, (C) recovery of the signature's v as V * g^(-rho) over all leaf pairs, (D) dictionary attack with the true hidden attribute and a decoy in seed-shuffled order, by opening recomputation, by arithmetic relations (a field equal to or a multiple of the candidate) and by difference quotients (s - s')/(c - c') over all response pairs and all pairs of public challenges (shared blinding inside one proof), (F, by the witness holder) the blinding part V / M of every group-element field for every message part M in {one attribute, all, hidden, revealed, none} under each base family: two different fields with the same blinding part whose message parts differ in a hidden position, or a blinding part equal to 1; \
                oracle: no program succeeds; positive control: the programs find a planted opening; non-trivial = proof with >= 1 hidden attribute; evaluations = attacker-program runs"
             .into(),
         assumptions: vec!["only the direct recomputation attacks named by the property are decided; subtler leaks are not found".into(), "attributes are random 256-bit values, so an accidental equality has probability < 2^-200".into()],
